@@ -256,7 +256,7 @@ def execInstr (ris : Bool) (regs : Array Reg) (instr : String) : M Reg := do
       if ris then badreq
       pt (EPt.mulByPow2 (← natRange 1 512 k) (← regPt regs i))
     | 'U', _ => do
-      let ps ← parts.mapM (regPt regs)
+      let ps ← (if rest.isEmpty then [] else parts).mapM (regPt regs)
       pt (EPt.sum ps)
     | 'E', [i, j] => do
       let p ← regPt regs i
